@@ -344,6 +344,8 @@ async fn run_delta(
 
     let sig_data = tokio::fs::read(signature).await?;
     let sig: copia::Signature = bincode::deserialize(&sig_data)?;
+    // The block size comes from the file: reject it here, `with_block_size` asserts.
+    validate_block_size(sig.block_size)?;
 
     let sync = AsyncCopiaSync::with_block_size(sig.block_size);
 
@@ -378,6 +380,8 @@ async fn run_patch(
 
     let delta_data = tokio::fs::read(delta).await?;
     let delta: copia::Delta = bincode::deserialize(&delta_data)?;
+    // The block size comes from the file: reject it here, `with_block_size` asserts.
+    validate_block_size(delta.block_size as usize)?;
 
     let sync = AsyncCopiaSync::with_block_size(delta.block_size as usize);
 
